@@ -11,8 +11,12 @@ if "--as" in extra:  # store seed<n> of the worktree as seeded/<ID>-<out_n> (lat
 dst = os.path.join(HOME, "seeded", f"{pid}-{out_n}")
 old = json.load(open(os.path.join(dst, "meta.json"))) if os.path.exists(os.path.join(dst, "meta.json")) else {}
 os.makedirs(dst, exist_ok=True)
-shutil.copy(os.path.join(wt, f"seed{n}.diff"), os.path.join(dst, "patch.diff"))
-shutil.copy(os.path.join(wt, f"demo{n}.py"), os.path.join(dst, "demo.py"))
+stored = "--stored" in extra  # re-test the patch already stored (e.g. re-based onto a repaired function)
+if stored:
+    extra.remove("--stored")
+else:
+    shutil.copy(os.path.join(wt, f"seed{n}.diff"), os.path.join(dst, "patch.diff"))
+    shutil.copy(os.path.join(wt, f"demo{n}.py"), os.path.join(dst, "demo.py"))
 r = subprocess.run([os.path.join(HOME, "tools", "seedtest.py"), os.path.join(dst, "patch.diff"), pid] + extra, capture_output=True, text=True)
 out = "\n".join(l for l in (r.stdout + r.stderr).splitlines() if "condarc" not in l)
 print(out[:1500])
@@ -40,7 +44,9 @@ meta = {
     "checks": status,
 }
 meta["first_result"] = old.get("first_result", status)  # what the check said the first time it met this change
-for k in ("summary", "strengthening", "round"):
+if stored and old.get("needs_to_manifest"):
+    meta["needs_to_manifest"] = old["needs_to_manifest"]
+for k in ("summary", "strengthening", "round", "rebased"):
     if k in old:
         meta[k] = old[k]
 json.dump(meta, open(os.path.join(dst, "meta.json"), "w"), indent=1)
